@@ -1,5 +1,3 @@
-//go:build wip_c18
-
 package kit
 
 // K6 (AST flavour), part 1: integer terms, linear forms with floor-division
@@ -19,7 +17,7 @@ import (
 
 // Term kinds.
 const (
-	TConst = iota
+	TConst  = iota
 	TVar    // local variable or parameter
 	TField  // Args[0].Obj (auto-dereferenced)
 	TLen    // len(Args[0])
@@ -146,7 +144,7 @@ func (a Iv) String() string {
 }
 
 func (a Iv) Within(b Iv) bool { return a.Lo >= b.Lo && a.Hi <= b.Hi }
-func (a Iv) Empty() bool       { return a.Lo > a.Hi }
+func (a Iv) Empty() bool      { return a.Lo > a.Hi }
 
 func sat(x int64) int64 {
 	if x > ivInf {
@@ -302,8 +300,8 @@ func (l *Lin) addScaled(m *Lin, c int64) *Lin {
 	return n
 }
 
-func (l *Lin) add(m *Lin) *Lin   { return l.addScaled(m, 1) }
-func (l *Lin) sub(m *Lin) *Lin   { return l.addScaled(m, -1) }
+func (l *Lin) add(m *Lin) *Lin    { return l.addScaled(m, 1) }
+func (l *Lin) sub(m *Lin) *Lin    { return l.addScaled(m, -1) }
 func (l *Lin) scale(c int64) *Lin { return linConst(0).addScaled(l, c) }
 func (l *Lin) addC(c int64) *Lin  { n := l.clone(); n.C += c; return n }
 
